@@ -52,6 +52,8 @@ def streams_py(h):
 
 def compare(chk, h, skip=False, kw=None, tag=''):
   prog = h['prog']
+  if h.get('undefined'):
+    return
   ps = prog_str(prog)
   kinds = '+'.join(sorted({o['op'] for o in prog}))
   for si, (stream, want) in enumerate(zip(streams_py(h), h['runs'])):
